@@ -2525,8 +2525,10 @@ func ruleStructFieldsAgree(c *Ctx, rule string) {
 	}
 	// member recursion: a call (of the function itself, or of a local closure that does its work) whose argument is a
 	// field taken out of the subject with Field/FieldByIndex/FieldByName
+	filters := map[*ssa.Function]map[string]bool{}
 	guarded := func(root *ssa.Function) (n int, exportedOnly, all bool) {
 		all = true
+		filters[root] = map[string]bool{}
 		for _, fi := range c.familyInstrs(root) {
 			call, ok := fi.I.(*ssa.Call)
 			if !ok {
@@ -2549,6 +2551,26 @@ func ruleStructFieldsAgree(c *Ctx, rule string) {
 			for _, ga := range famGuards(fi) {
 				if gc, ok := ga.Cond.(*ssa.Call); ok && ga.Pol && core.CalleeKey(&gc.Call) == "reflect.StructField.IsExported" {
 					g = true
+					continue
+				}
+				// any other test of the field's description (its tag, its name, whether it is embedded)
+				for _, v := range append(backSlice(ga.Cond, 10), ga.Cond) {
+					switch x := v.(type) {
+					case *ssa.Call:
+						for _, a := range x.Call.Args {
+							if isNamed(a.Type(), "reflect", "StructField") || isNamed(a.Type(), "reflect", "StructTag") {
+								if k := core.CalleeKey(&x.Call); k != "reflect.StructField.IsExported" {
+									filters[root][k] = true
+								}
+							}
+						}
+					case *ssa.Field:
+						if isNamed(x.X.Type(), "reflect", "StructField") {
+							if nm := c.fieldName(x.X.Type(), x.Field); nm != "StructField.Index" && nm != "StructField.Type" {
+								filters[root][nm] = true
+							}
+						}
+					}
 				}
 			}
 			if g {
@@ -2565,6 +2587,9 @@ func ruleStructFieldsAgree(c *Ctx, rule string) {
 		c.R.OK(rule, "no-struct-recursion", "", fmt.Sprintf("member recursions on struct fields: equality %d, hasher %d: nothing to compare", nEq, nH))
 		return
 	}
+	fe, fh := sortedKeys(filters[eq]), sortedKeys(filters[h])
+	c.R.Check(strings.Join(fe, ",") == strings.Join(fh, ","), rule, "same-field-filter", c.P.Pos(eq.Pos()), "equality and the hasher pass over the same struct fields",
+		fmt.Sprintf("equality decides which struct fields to pass over by %v, the hasher by %v: a field one of them ignores and the other does not makes two structs equal that hash differently (uniqueItems misses the duplicate) or the other way round; and a filter on the tag name alone also drops the field tagged `json:\"-,\"`, which encoding/json does emit (under the name \"-\")", fe, fh))
 	c.R.Check(eqSome == hSome && eqAll == hAll, rule, "exported-fields-only", c.P.Pos(h.Pos()), "equality and the hasher agree on whether unexported struct fields count",
 		fmt.Sprintf("equality passes over unexported struct fields: %v; the hasher does: %v: two structs that differ only in a field one of the two functions ignores are equal but hash differently (uniqueItems never compares them), or hash alike and compare unequal", eqAll, hAll))
 }
